@@ -125,6 +125,21 @@ func followUps(c *Collector, r *Rng, kind string, data []byte, d *decoded) {
 		addCase(c, "followup/key-verifier", op, obs, true)
 		p, _ = protect(func() { d.key.AlgorithmOrDefault(); d.key.EC2(); d.key.OKP(); d.key.Symmetric() })
 		panicFail("Key accessors", p)
+		// whatever signer / verifier the key yields is then used: an error is fine, a panic is not
+		p, _ = protect(func() {
+			if v, err := d.key.Verifier(); err == nil && v != nil {
+				v.Verify([]byte("content"), make([]byte, 64))
+				v.Verify([]byte("content"), make([]byte, 114))
+				v.Verify(nil, nil)
+			}
+		})
+		panicFail("verifying with the verifier a decoded key yields", p)
+		p, _ = protect(func() {
+			if s, err := d.key.Signer(); err == nil && s != nil {
+				s.Sign(r, []byte("content"))
+			}
+		})
+		panicFail("signing with the signer a decoded key yields", p)
 	}
 }
 
@@ -232,6 +247,12 @@ func runC06(c *Collector, r *Rng, thorough bool) {
 		{"DUnprot", "b8"}, {"DUnprot", "b9"}, {"DUnprot", "b900"}, {"DUnprot", "ba"}, {"DUnprot", "ba000000"}, {"DUnprot", "bb"}, {"DUnprot", "bb00000000000000"}, {"DUnprot", "a1"}, {"DUnprot", "a101"}, {"DUnprot", "a10118"}, {"DUnprot", "a1011b00"}, {"DUnprot", "a104"}, {"DUnprot", "a10458"},
 		{"DSign1", "d2"}, {"DSign1", "d284"}, {"DSign1", "d28458"}, {"DSign1", "d2845900"}, {"DSign1", "d28440b8"}, {"DSign1", "d28440a058"}, {"DSign1", "d28440a0f658"}, {"DSign1U", "84"}, {"DSign1U", "8458"}, {"DSign1U", "98"}, {"DSign1U", "9800"},
 		{"DSignature", "83"}, {"DSignature", "8358"}, {"DSignature", "8340b9"}, {"DSignMsg", "d8"}, {"DSignMsg", "d862"}, {"DSignMsg", "d86284"}, {"DSignMsg", "d8628440a0f698"}, {"DSignMsg", "d8628440a0f68183"}, {"DSignMsg", "d8628440a0f6818358"}, {"DKey", "b8"}, {"DKey", "a1"}, {"DKey", "a101"}, {"DKey", "a10118"},
+		// OKP keys on every registered curve (X25519 4, X448 5, Ed25519 6, Ed448 7) and an unregistered one with x and d
+		// of 32, 56 and 57 octets, with and without alg EdDSA
+		{"DKey", "a30101200721" + "5839" + ones(57)}, {"DKey", "a4010103272007" + "215839" + ones(57)}, {"DKey", "a30101200723" + "5839" + ones(57)}, {"DKey", "a401012007" + "215839" + ones(57) + "235839" + ones(57)},
+		{"DKey", "a30101200521" + "5838" + ones(56)}, {"DKey", "a30101200523" + "5838" + ones(56)}, {"DKey", "a30101200421" + "5820" + ones(32)}, {"DKey", "a30101200423" + "5820" + ones(32)},
+		{"DKey", "a30101200721" + "5820" + ones(32)}, {"DKey", "a30101200621" + "5839" + ones(57)}, {"DKey", "a30101200621" + "5838" + ones(56)}, {"DKey", "a30101200821" + "5839" + ones(57)},
+		{"DKey", "a4010103272005" + "215838" + ones(56)}, {"DKey", "a30101200723" + "5820" + ones(32)},
 		// key_ops entries outside the registry: negative, beyond the word size, extreme; alone and next to sign / verify
 		{"DKey", "a40101048120" + "2006" + "215820" + ones(32)}, {"DKey", "a4010104820120" + "2006" + "235820" + ones(32)}, {"DKey", "a401010483200102" + "2006" + "215820" + ones(32)},
 		{"DKey", "a401010481383f" + "2006" + "215820" + ones(32)}, {"DKey", "a40101048138ff" + "2006" + "235820" + ones(32)}, {"DKey", "a4010104811840" + "2006" + "215820" + ones(32)},
